@@ -78,7 +78,9 @@ class C02(Check):
     level_text = ('every labelled graph with an anchor on 3..4 (quick) / 3..5 (thorough) atoms in 8 geometry classes, '
                   '1- and 2-atom references along 7 axis classes with all 9 combinations of a 3-entry draw menu at '
                   'construction and at call, 3 targets, 2 scale factors, the whole cube rotation group plus 3 generic '
-                  'rotations, 3 translations (up to 135 nm), all executed on the real code')
+                  'rotations, 3 translations (up to 135 nm), all executed on the real code; the 24 cube rotations are applied '
+                  'to every geometry class for references up to 4 atoms in the thorough tier, otherwise to the generic, '
+                  'collinear-x and collinear-z classes (the other classes get the identity and the 3 generic rotations)')
     level_note = ('trusted: numpy arithmetic, graph enumerator, in-memory builders, brute-force nearest-anchor assignment; '
                   'not covered: rotations outside the 27-element list, near-collinear references, draw values outside the menu '
                   '(in particular the zero vector), references above 5 atoms')
@@ -95,12 +97,12 @@ class C02(Check):
                        'geometry_classes': list(xm.GEO), 'two_atom_axis_classes': list(AX2),
                        'targets': [list(t) for t in TARGETS], 'scale_factors': list(SCALES),
                        'rotations': 27, 'translations': 3,
-                       'quick_full_cube_group_on': list(QUICK_CUBE) if tier != 'thorough' else list(xm.GEO), 'draw_menu': [3, 3], 'tolerance_nm': TOL}
+                       'full_cube_group_on': {'n<=4': list(QUICK_CUBE) if tier != 'thorough' else list(xm.GEO), 'n=5': list(QUICK_CUBE)}, 'draw_menu': [3, 3], 'tolerance_nm': TOL}
         u = []
         for n in range(3, nmax + 1):
             for geo in xm.GEO:
-                full = tier == 'thorough' or geo in QUICK_CUBE
-                mod = {3: 1, 4: 18 if full else 3, 5: 64}[n]
+                full = (tier == 'thorough' and n <= 4) or geo in QUICK_CUBE
+                mod = {3: 1, 4: 18 if full else 3, 5: 96 if full else 16}[n]
                 u += [{'k': 'g', 'n': n, 'geo': geo, 'mod': mod, 'r': r} for r in range(mod)]
         u += [{'k': 'ref2', 'ax': ax} for ax in AX2]
         u.append({'k': 'ref1'})
@@ -112,9 +114,9 @@ class C02(Check):
             for i, edges in enumerate(xm.ref_graphs(n)):
                 if i % unit['mod'] != unit['r']:
                     continue
-                # quick: the whole cube group on generic + two axis classes; identity and the generic
-                # rotations everywhere.  thorough: full product.
-                rs = 'all' if tier == 'thorough' or unit['geo'] in QUICK_CUBE else 'gen'
+                # the whole cube group on generic + two axis classes; identity and the generic rotations
+                # everywhere.  thorough, references up to 4 atoms: full product on every class.
+                rs = 'all' if (tier == 'thorough' and n <= 4) or unit['geo'] in QUICK_CUBE else 'gen'
                 for m, place in TARGETS:
                     for s in SCALES:
                         yield {'k': 'g', 'n': n, 'edges': edges, 'geo': unit['geo'], 'm': m, 'place': place,
